@@ -66,11 +66,15 @@ func c15R1(c *Ctx, r *Report) {
 		_, okE := EdgesOnValue(fn, func(v ssa.Value) bool { return unwrapLoadFree(v) == ev })
 		r.Check("C15-R1", "fn="+name+" config-document-write after=registry-update-succeeded", c.Pos(w.Pos()), ev != nil && len(okE) > 0 && DominatedBy(fn, w, NewAvoid().AddEdge(okE...)),
 			"the config document is touched only after the registry recorded the intent", "the config document can be written/deleted although the registry update did not succeed: other nodes would load a config the registry does not describe")
-		// (b) finalise loop dominated by success of config write
-		if len(loops) > 1 {
+		// (b) finalise loop (in the operation itself or in a helper extracted from it) dominated by success of config write
+		loopSites := c.EffectSites(fn, func(in ssa.Instruction) bool {
+			ci, ok := in.(ssa.CallInstruction)
+			return ok && c.CalleeName(ci) == "base.RetryLoopWithOptions"
+		}, 2)
+		if len(loopSites) > 1 {
 			wv := errValueOf(w.(*ssa.Call))
 			_, wOK := EdgesOnValue(fn, func(v ssa.Value) bool { return unwrapLoadFree(v) == wv })
-			fin := loops[len(loops)-1]
+			fin := loopSites[len(loopSites)-1]
 			r.Check("C15-R1", "fn="+name+" registry-finalise after=config-document-write-succeeded", c.Pos(fin.Pos()), len(wOK) > 0 && DominatedBy(fn, fin, NewAvoid().AddEdge(wOK...)),
 				"the previous version is dropped from the registry only after the config document was written", "the registry can be finalised although the config document write failed: the recovery information (previous version) would be lost")
 		}
@@ -112,7 +116,11 @@ func c15R1(c *Ctx, r *Report) {
 	// DeleteConfig finalize: the registry entry is removed only if it is still the deleted marker written in step 2
 	if fn := c.Func("(*rest.bootstrapContext).DeleteConfig"); fn != nil {
 		found := false
-		for _, lit := range c15Lits(fn) {
+		var lits []*ssa.Function
+		for _, h := range c.PrivateHelpers(fn, 2) { // the finalize step may have been extracted into a helper of DeleteConfig
+			lits = append(lits, c15Lits(h)...)
+		}
+		for _, lit := range lits {
 			rm := c.Calls(lit, false, nameIs("(*rest.GatewayRegistry).removeDatabase"))
 			if len(rm) == 0 {
 				continue
